@@ -44,6 +44,14 @@ def run(ctx):
     rdrv = vf.build_driver("routerdrv")
     trace, _ = routerfam.run_mode(ctx, rdrv, "c01", ["-thorough"] if not ctx.quick else [])
     routerfam.validate(ctx, trace, only=["Inv_C01_", "Inv_C03_Answered", "Inv_C03_AtMostOne", "Unconsumable"], require_events=300)
+    # upstream side: replies that are malformed at the framing level (half frame, length field that lies,
+    # well-framed garbage) on every transport make the exchange fail by its deadline, and the transport goes on
+    # serving - a wedged multiplexed connection is ended by its idle time-out even under steady load
+    xdrv = vf.build_driver("xportdrv")
+    t3 = ctx.path("malreply.ndjson")
+    ctx.driver(xdrv, ["-mode", "fault", "-out", t3], env={"VERIF_FAULTS": "half,garbage,garbage2nd,halfsteady", "VERIF_SEED": str(ctx.seed)}, timeout=600)
+    ctx.validate("FaultTrace", t3, lambda ev, inv: "%s:%s" % (inv, ev.get("sc", ev.get("ev", "?"))),
+                 describe=lambda ev, inv: "%s at %s" % (inv, json.dumps(ev)[:400]), timeout=600, require_events=60)
     ctx.extra["enumerated_inputs_replayed"] = len(cases)
     ctx.assumptions += [
         "no read out of bounds is observable in Go only as a panic: the specification proves in-bounds and termination for the modelled decoder and predicts the verdict; the real decoder is executed on every enumerated and generated input under a supervisor (panic -> crash event, 3 s stall -> hang event, neither has a specification action)",
